@@ -113,3 +113,63 @@ def lenient_parts(line, placeholders=True):
 
 def placeholder_involved(line):
     return placeholder_escape(line) != line or placeholder_unescape(line) != line
+
+
+# ---------------------------------------------------------------------------------------------
+# Executable model of how the zoneinfo provider interprets a VTIMEZONE: it hands the component to
+# dateutil.tz.tzical, whose (a) component lookup works on *naive local* time, (b) UTC->local
+# conversion is Python's generic tzinfo.fromutc algorithm (exact only while utcoffset-dst is
+# constant), (c) UNTIL is read with ignoretz (a UTC UNTIL is compared with local onsets).
+# Written from dateutil/tz/tz.py (_tzicalvtz) and _common.py (_tzinfo); used only to decide whether
+# an observed wrong offset is that known mechanism: the prediction must equal the observation.
+class TzicalTypeError(Exception):
+    pass
+
+
+def tzical_model(r5def, p_utc_naive):
+    """-> (utcoffset seconds, tzname, dst seconds) dateutil's tzical reports for the UTC instant"""
+    import bisect
+    from datetime import timedelta
+    from .refs import vtimezone as R5
+
+    comps = []
+    for o in r5def:
+        comps.append({"from": o["from"], "to": o["to"], "diff": o["to"] - o["from"], "isdst": o["kind"] == "DAYLIGHT", "name": o["name"],
+                      "onsets": R5.local_onsets(o, until_as_local=True)})
+
+    def find(dt, fold):
+        if len(comps) == 1:
+            return comps[0]
+        best, bestdt = None, None
+        for c in comps:
+            d = dt
+            if c["diff"] < 0 and fold:
+                d = d - timedelta(seconds=c["diff"])
+            i = bisect.bisect_right(c["onsets"], d) - 1
+            compdt = c["onsets"][i] if i >= 0 else None
+            if compdt and (not bestdt or bestdt < compdt):
+                best, bestdt = c, compdt
+        if best is None:
+            for c in comps:
+                if not c["isdst"]:
+                    return c
+            # dateutil: ``lastcomp = comp[0]`` - a component is not subscriptable
+            raise TzicalTypeError()
+        return best
+
+    def utcoffset(dt, fold):
+        return timedelta(seconds=find(dt, fold)["to"])
+
+    def dst(dt, fold):
+        c = find(dt, fold)
+        return timedelta(seconds=c["diff"]) if c["isdst"] else timedelta(0)
+
+    dt = p_utc_naive
+    delta = utcoffset(dt, 0) - dst(dt, 0)
+    dt2 = dt + delta
+    wall = dt2 + dst(dt2, 1)
+    fold = 0
+    if utcoffset(wall, 0) != utcoffset(wall, 1):
+        fold = int((wall - p_utc_naive) == (utcoffset(p_utc_naive, 0) - dst(p_utc_naive, 0)))
+    c = find(wall, fold)
+    return (c["to"], c["name"], c["diff"] if c["isdst"] else 0)
